@@ -37,7 +37,7 @@ def one(seed):
     json.dump(m, open(mp, "w"), indent=1)
     return seed, det
 
-seeds = sorted(s for s in os.listdir(os.path.join(V, "seeded")) if os.path.isdir(os.path.join(V, "seeded", s)) and (not only or s in only))
+seeds = sorted(s for s in os.listdir(os.path.join(V, "seeded")) if os.path.isdir(os.path.join(V, "seeded", s)) and (not only or s in only or s.split("-")[0] in only))
 with ThreadPoolExecutor(max_workers=4) as ex:
     for seed, det in ex.map(one, seeds):
         print("%-32s %s" % (seed, "DETECTED by " + ",".join(sorted(det)) if det else "MISSED"))
